@@ -16,6 +16,10 @@ Open Scope N_scope.
 
 (* lia with division / modulo by constants *)
 Ltac dlia := zify; Z.to_euclidean_division_equations; lia.
+(* split syntactic conjunctions only (never unfolds a definition, never splits an [exists]) *)
+(* equalities between differently bracketed appends / conses *)
+Ltac norm_app := cbn [app]; rewrite <- ?app_assoc; cbn [app]; rewrite <- ?app_assoc; reflexivity.
+Ltac splits := repeat match goal with |- _ /\ _ => split end.
 
 (* ------------------------------------------------------------------ *)
 (* 1. helpers                                                          *)
@@ -178,11 +182,11 @@ Qed.
 Lemma RRAt_app bs more pos r nx : RRAt bs pos r nx -> RRAt (bs ++ more) pos r nx.
 Proof.
   intros (p1 & len & H1 & H2 & H3 & H4 & H5 & H6 & H7). exists p1, len.
-  repeat (apply conj); auto using NameIs_app, u16At_app, u32At_app, RDataAt_app.
+  splits; auto using NameIs_app, u16At_app, u32At_app, RDataAt_app.
 Qed.
 Lemma QuestionAt_app bs more pos q nx : QuestionAt bs pos q nx -> QuestionAt (bs ++ more) pos q nx.
 Proof.
-  intros (p1 & H1 & H2 & H3 & H4). exists p1. repeat (apply conj); auto using NameIs_app, u16At_app.
+  intros (p1 & H1 & H2 & H3 & H4). exists p1. splits; auto using NameIs_app, u16At_app.
 Qed.
 Lemma SeqAt_app {A} (P : list byte -> N -> A -> N -> Prop) bs more
   (HP : forall pos x nx, P bs pos x nx -> P (bs ++ more) pos x nx) xs :
@@ -193,4 +197,660 @@ Qed.
 Lemma HeaderIs_app bs more h : HeaderIs bs h -> HeaderIs (bs ++ more) h.
 Proof.
   intros (f1 & f2 & H0 & H1 & H2 & H). exists f1, f2. auto using u16At_app, at_app.
+Qed.
+
+(* ------------------------------------------------------------------ *)
+(* 2. plain (pointer-free) names                                       *)
+(* ------------------------------------------------------------------ *)
+
+(* the octets [write_labels] produces *)
+Definition wire_labels (ls : list label) : list byte := flat_map (fun l => llen l :: l) ls.
+
+Lemma llen_wire_labels ls : llen (wire_labels ls) = sum_lens ls.
+Proof.
+  induction ls as [|l ls IH]; [reflexivity|].
+  cbn [wire_labels flat_map sum_lens]. fold (wire_labels ls).
+  change (llen l :: l ++ wire_labels ls) with ((llen l :: l) ++ wire_labels ls).
+  rewrite llen_app, llen_cons, IH. lia.
+Qed.
+
+(* the labels [ls] are written out in full, length octet + octets each, from offset [off] *)
+Definition PlainAt (bs : list byte) (off : N) (ls : list label) : Prop :=
+  exists pre post, bs = pre ++ wire_labels ls ++ post /\ llen pre = off.
+
+Lemma PlainAt_app bs more off ls : PlainAt bs off ls -> PlainAt (bs ++ more) off ls.
+Proof.
+  intros (pre & post & -> & H). exists pre, (post ++ more). split; auto.
+  now rewrite <- !app_assoc.
+Qed.
+Lemma PlainAt_end bs off ls : PlainAt bs off ls -> off + sum_lens ls <= llen bs.
+Proof.
+  intros (pre & post & -> & H). rewrite !llen_app, llen_wire_labels. lia.
+Qed.
+
+Definition lab_ok (l : label) : Prop := l <> [] /\ wf_label l.
+
+Lemma map_lower_id l : Forall (fun b => b < 256 /\ is_upper b = false) l -> map lower l = l.
+Proof.
+  induction 1 as [|x l [_ Hx] _ IH]; cbn; [reflexivity|].
+  unfold lower at 1. rewrite Hx. now f_equal.
+Qed.
+
+Lemma NA_label_plain bs start pos l ls next :
+  lab_ok l -> at_ bs pos = Some (llen l) -> octetsAt bs (pos + 1) (llen l) l ->
+  NameAt bs start (pos + 1 + llen l) ls next ->
+  NameAt bs start pos (l :: ls) next.
+Proof.
+  intros [Hne [Hlen Hl]] Hat Hos Hrest.
+  rewrite <- (map_lower_id l Hl).
+  eapply NA_label; eauto.
+  destruct l; [congruence|]. rewrite llen_cons in *. lia.
+Qed.
+
+Lemma sum_lens_root : sum_lens [[]] = 1.
+Proof. reflexivity. Qed.
+Lemma sum_lens_cons l ls : sum_lens (l :: ls) = 1 + llen l + sum_lens ls.
+Proof. reflexivity. Qed.
+
+(* a plainly written well-formed label sequence parses as a name, whatever [start] is *)
+Lemma plain_NameAt front : forall pre post start, Forall lab_ok front ->
+  NameAt (pre ++ wire_labels (front ++ [[]]) ++ post) start (llen pre) (front ++ [[]])
+         (llen pre + sum_lens (front ++ [[]])).
+Proof.
+  induction front as [|l front IH]; intros pre post start Hf.
+  - cbn [app]. rewrite sum_lens_root. apply NA_root. cbn. apply nthN_app_mid.
+  - inversion Hf as [|? ? Hl Hf']; subst.
+    cbn [app]. rewrite sum_lens_cons.
+    cbn [wire_labels flat_map]. fold (wire_labels (front ++ [[]])).
+    set (W := wire_labels (front ++ [[]])). cbn [app].
+    apply NA_label_plain; auto.
+    + cbn [app]. unfold at_. apply nthN_app_mid.
+    + unfold octetsAt.
+      match goal with |- sliceN ?L _ _ = _ =>
+        replace L with ((pre ++ [llen l]) ++ l ++ (W ++ post)) by norm_app end.
+      replace (llen pre + 1) with (llen (pre ++ [llen l])) by (rewrite llen_app, llen_cons, llen_nil; lia).
+      apply sliceN_app_mid.
+    + match goal with |- NameAt ?L _ _ _ _ =>
+        replace L with ((pre ++ [llen l] ++ l) ++ W ++ post) by norm_app end.
+      replace (llen pre + 1 + llen l) with (llen (pre ++ [llen l] ++ l))
+        by (rewrite !llen_app, llen_cons, llen_nil; lia).
+      replace (llen pre + (1 + llen l + sum_lens (front ++ [[]])))
+        with (llen (pre ++ [llen l] ++ l) + sum_lens (front ++ [[]]))
+        by (rewrite !llen_app, llen_cons, llen_nil; lia).
+      apply IH; auto.
+Qed.
+
+Lemma wf_name_front n : wf_name n ->
+  exists front, labels n = front ++ [[]] /\ Forall lab_ok front
+                /\ nlen n = sum_lens (labels n) /\ nlen n <= 255.
+Proof.
+  intros [(front & E & Hf & Hs) Hn]. exists front. splits; auto. lia.
+Qed.
+
+Lemma PlainAt_NameAt bs off n start : wf_name n -> PlainAt bs off (labels n) ->
+  NameAt bs start off (labels n) (off + nlen n).
+Proof.
+  intros Hwf (pre & post & -> & <-).
+  destruct (wf_name_front n Hwf) as (front & E & Hf & Hn & _).
+  rewrite Hn, E. now apply plain_NameAt.
+Qed.
+
+Lemma PlainAt_NameIs bs off n : wf_name n -> PlainAt bs off (labels n) ->
+  NameIs bs off n (off + nlen n).
+Proof.
+  intros Hwf Hp. destruct (wf_name_front n Hwf) as (front & E & Hf & Hn & Hle).
+  split; [now apply PlainAt_NameAt | auto].
+Qed.
+
+(* ------------------------------------------------------------------ *)
+(* 3. the buffer invariant                                             *)
+(* ------------------------------------------------------------------ *)
+
+Lemma octets_write_octets os b : wb_octets (write_octets os b) = wb_octets b ++ os.
+Proof.
+  unfold wb_octets, write_octets; cbn [wb_rev].
+  now rewrite rev_append_rev, rev_app_distr, rev_involutive.
+Qed.
+Lemma len_write_octets os b : wb_len (write_octets os b) = wb_len b + llen os.
+Proof. reflexivity. Qed.
+Lemma ptrs_write_octets os b : wb_ptrs (write_octets os b) = wb_ptrs b.
+Proof. reflexivity. Qed.
+
+(* one entry of the name -> pointer table: the pointer is 0xC000 + off with off < 2^14, and
+   the (non-root, well-formed) name is written out in full, without pointers, at [off] *)
+Definition entry_ok (bs : list byte) (e : dname * N) : Prop :=
+  exists off, snd e = 49152 + off /\ off < 16384 /\ wf_name (fst e) /\ is_root (fst e) = false
+              /\ PlainAt bs off (labels (fst e)).
+
+Record wb_ok (b : wbuf) : Prop := {
+  ok_len : wb_len b = llen (wb_octets b);
+  ok_bytes : bytes (wb_octets b);
+  ok_ptrs : Forall (entry_ok (wb_octets b)) (wb_ptrs b);
+  ok_keys : NoDup (map fst (wb_ptrs b)) }.
+
+Lemma entry_ok_app bs more e : entry_ok bs e -> entry_ok (bs ++ more) e.
+Proof.
+  intros (off & H1 & H2 & H3 & H4 & H5). exists off. splits; auto using PlainAt_app.
+Qed.
+
+Lemma wb_ok_empty : wb_ok wb_empty.
+Proof. split; cbn; try constructor. Qed.
+
+Lemma wb_ok_write_octets os b : bytes os -> wb_ok b -> wb_ok (write_octets os b).
+Proof.
+  intros Hos [H1 H2 H3 H4]. split.
+  - rewrite len_write_octets, octets_write_octets, llen_app. lia.
+  - rewrite octets_write_octets. now apply bytes_app.
+  - rewrite octets_write_octets, ptrs_write_octets.
+    eapply Forall_impl; [|exact H3]. intros e. apply entry_ok_app.
+  - now rewrite ptrs_write_octets.
+Qed.
+
+(* what the invariant says about a pointer found in the table (DESIGN C04 T1): it addresses
+   the start of an identical name written earlier, in full, strictly before the write position *)
+Lemma enc_table_inv_lookup b n p : wb_ok b -> alookup dname_eqb n (wb_ptrs b) = Some p ->
+  exists off, p = 49152 + off /\ off < 16384 /\ off < wb_len b /\ wf_name n /\ is_root n = false
+    /\ PlainAt (wb_octets b) off (labels n)
+    /\ (forall start, NameAt (wb_octets b) start off (labels n) (off + nlen n))
+    /\ off + nlen n <= wb_len b.
+Proof.
+  intros Hok Hl. apply alookup_some in Hl.
+  pose proof (ok_ptrs b Hok) as Hp. rewrite Forall_forall in Hp.
+  destruct (Hp _ Hl) as (off & H1 & H2 & H3 & H4 & H5). cbn [fst snd] in *.
+  pose proof (PlainAt_end _ _ _ H5) as He.
+  destruct (wf_name_front n H3) as (front & E & Hf & Hn & Hle).
+  assert (1 <= sum_lens (labels n)).
+  { rewrite E. clear. induction front; cbn [app]; [rewrite sum_lens_root; lia | rewrite sum_lens_cons; lia]. }
+  exists off. rewrite (ok_len b Hok). splits; auto; try lia.
+  intros start. now apply PlainAt_NameAt.
+Qed.
+
+(* write_labels *)
+Lemma write_labels_spec ls : forall b,
+  wb_octets (write_labels ls b) = wb_octets b ++ wire_labels ls
+  /\ wb_len (write_labels ls b) = wb_len b + sum_lens ls
+  /\ wb_ptrs (write_labels ls b) = wb_ptrs b.
+Proof.
+  unfold write_labels.
+  induction ls as [|l ls IH]; intros b; cbn [fold_left].
+  - cbn. rewrite app_nil_r. splits; auto. lia.
+  - destruct (IH (write_octets l (write_u8 (llen l) b))) as (H1 & H2 & H3).
+    rewrite H1, H2, H3. unfold write_u8.
+    rewrite !octets_write_octets, !len_write_octets, !ptrs_write_octets.
+    cbn [wire_labels flat_map]. rewrite sum_lens_cons, llen_cons, llen_nil.
+    splits; auto; [|lia]. rewrite <- !app_assoc. reflexivity.
+Qed.
+
+Lemma bytes_wire_labels front : Forall lab_ok front -> bytes (wire_labels (front ++ [[]])).
+Proof.
+  induction 1 as [|l front [Hne [Hlen Hl]] _ IH]; cbn [app wire_labels flat_map].
+  - repeat constructor.
+  - fold (wire_labels (front ++ [[]])). cbn [app]. constructor; [cbn beta; unfold byte in *; lia|]. apply bytes_app; auto.
+    eapply Forall_impl; [|exact Hl]. cbn beta. tauto.
+Qed.
+
+(* ------------------------------------------------------------------ *)
+(* 4. the encoder steps                                                *)
+(* ------------------------------------------------------------------ *)
+
+(* [b'] has the octets of [b] plus some more *)
+Definition ext (b b' : wbuf) : Prop := exists os, wb_octets b' = wb_octets b ++ os.
+
+Lemma ext_refl b : ext b b.
+Proof. exists []. now rewrite app_nil_r. Qed.
+Lemma ext_trans a b c : ext a b -> ext b c -> ext a c.
+Proof. intros [x Hx] [y Hy]. exists (x ++ y). now rewrite Hy, Hx, app_assoc. Qed.
+Lemma ext_write_octets os b : ext b (write_octets os b).
+Proof. exists os. apply octets_write_octets. Qed.
+Lemma ext_len a b : wb_ok a -> wb_ok b -> ext a b -> wb_len a <= wb_len b.
+Proof. intros Ha Hb [os E]. rewrite (ok_len a Ha), (ok_len b Hb), E, llen_app. lia. Qed.
+
+Ltac solve_ext :=
+  repeat first [ assumption | apply ext_refl | apply ext_write_octets
+               | eapply ext_trans; [eassumption|] ].
+
+Lemma at_ext a b i x : ext a b -> at_ (wb_octets a) i = Some x -> at_ (wb_octets b) i = Some x.
+Proof. intros [os ->]. apply at_app. Qed.
+Lemma u16At_ext a b i v : ext a b -> u16At (wb_octets a) i v -> u16At (wb_octets b) i v.
+Proof. intros [os ->]. apply u16At_app. Qed.
+Lemma u32At_ext a b i v : ext a b -> u32At (wb_octets a) i v -> u32At (wb_octets b) i v.
+Proof. intros [os ->]. apply u32At_app. Qed.
+Lemma NameIs_ext a b p n nx : ext a b -> NameIs (wb_octets a) p n nx -> NameIs (wb_octets b) p n nx.
+Proof. intros [os ->]. apply NameIs_app. Qed.
+Lemma RDataAt_ext a b ty len pos d nx :
+  ext a b -> RDataAt (wb_octets a) ty len pos d nx -> RDataAt (wb_octets b) ty len pos d nx.
+Proof. intros [os ->]. apply RDataAt_app. Qed.
+Lemma RRAt_ext a b pos r nx : ext a b -> RRAt (wb_octets a) pos r nx -> RRAt (wb_octets b) pos r nx.
+Proof. intros [os ->]. apply RRAt_app. Qed.
+Lemma QuestionAt_ext a b pos q nx :
+  ext a b -> QuestionAt (wb_octets a) pos q nx -> QuestionAt (wb_octets b) pos q nx.
+Proof. intros [os ->]. apply QuestionAt_app. Qed.
+Lemma SeqRR_ext a b pos rs nx :
+  ext a b -> SeqAt (RRAt (wb_octets a)) pos rs nx -> SeqAt (RRAt (wb_octets b)) pos rs nx.
+Proof. intros [os ->]. apply (SeqAt_app RRAt). intros. now apply RRAt_app. Qed.
+Lemma SeqQ_ext a b pos qs nx :
+  ext a b -> SeqAt (QuestionAt (wb_octets a)) pos qs nx -> SeqAt (QuestionAt (wb_octets b)) pos qs nx.
+Proof. intros [os ->]. apply (SeqAt_app QuestionAt). intros. now apply QuestionAt_app. Qed.
+Lemma HeaderIs_ext a b h : ext a b -> HeaderIs (wb_octets a) h -> HeaderIs (wb_octets b) h.
+Proof. intros [os ->]. apply HeaderIs_app. Qed.
+
+(* fixed-width fields *)
+Lemma write_octets_ok os b : bytes os -> wb_ok b ->
+  wb_ok (write_octets os b) /\ ext b (write_octets os b)
+  /\ wb_len (write_octets os b) = wb_len b + llen os
+  /\ octetsAt (wb_octets (write_octets os b)) (wb_len b) (llen os) os.
+Proof.
+  intros Hos Hok. splits; auto using wb_ok_write_octets, ext_write_octets.
+  rewrite octets_write_octets, (ok_len b Hok). unfold octetsAt.
+  rewrite <- (app_nil_r os) at 1. apply sliceN_app_mid.
+Qed.
+
+Lemma write_u8_ok v b : v < 256 -> wb_ok b ->
+  wb_ok (write_u8 v b) /\ ext b (write_u8 v b) /\ wb_len (write_u8 v b) = wb_len b + 1
+  /\ at_ (wb_octets (write_u8 v b)) (wb_len b) = Some v.
+Proof.
+  intros Hv Hok. unfold write_u8. splits; auto using ext_write_octets.
+  - apply wb_ok_write_octets; auto. repeat constructor. exact Hv.
+  - rewrite octets_write_octets, (ok_len b Hok). apply nthN_app_mid.
+Qed.
+
+Lemma write_u16_ok v b : wb_ok b ->
+  wb_ok (write_u16 v b) /\ ext b (write_u16 v b) /\ wb_len (write_u16 v b) = wb_len b + 2
+  /\ (u16 v -> u16At (wb_octets (write_u16 v b)) (wb_len b) v).
+Proof.
+  intros Hok. unfold write_u16. splits; auto using wb_ok_write_octets, ext_write_octets, bytes_u16.
+  intros Hv. rewrite octets_write_octets, (ok_len b Hok).
+  exists (u16_hi v), (u16_lo v). splits.
+  - apply nthN_app_mid.
+  - unfold at_. rewrite nthN_app_r. reflexivity.
+  - now apply u16_bytes_val.
+Qed.
+
+Lemma write_u32_ok v b : wb_ok b ->
+  wb_ok (write_u32 v b) /\ ext b (write_u32 v b) /\ wb_len (write_u32 v b) = wb_len b + 4
+  /\ (u32 v -> u32At (wb_octets (write_u32 v b)) (wb_len b) v).
+Proof.
+  intros Hok. unfold write_u32. splits; auto using wb_ok_write_octets, ext_write_octets, bytes_u32.
+  intros Hv. rewrite octets_write_octets, (ok_len b Hok).
+  exists ((v / 16777216) mod 256), ((v / 65536) mod 256), ((v / 256) mod 256), (v mod 256). splits.
+  - apply nthN_app_mid.
+  - unfold at_. rewrite nthN_app_r. reflexivity.
+  - unfold at_. rewrite nthN_app_r. reflexivity.
+  - unfold at_. rewrite nthN_app_r. reflexivity.
+  - now apply u32_bytes_val.
+Qed.
+
+(* memoise_name: octets untouched; the table gains at most the entry for the current offset,
+   and only when that offset is below 2^14 *)
+Lemma memoise_name_spec n b :
+  wb_octets (memoise_name n b) = wb_octets b /\ wb_len (memoise_name n b) = wb_len b
+  /\ (wb_ptrs (memoise_name n b) = wb_ptrs b
+      \/ (wb_ptrs (memoise_name n b) = wb_ptrs b ++ [(n, 49152 + wb_len b)]
+          /\ wb_len b < 16384 /\ is_root n = false /\ alookup dname_eqb n (wb_ptrs b) = None)).
+Proof.
+  unfold memoise_name.
+  destruct (is_root n) eqn:R; cbn [negb andb]; auto.
+  destruct (alookup dname_eqb n (wb_ptrs b)) eqn:L; cbn [negb]; auto.
+  destruct (wb_len b <? 65536) eqn:L1; cbn [andb]; auto.
+  destruct (wb_len b <? 16384) eqn:L2; auto.
+  apply N.ltb_lt in L2. cbn [wb_octets wb_rev wb_len wb_ptrs]. splits; auto. right. splits; auto.
+  do 3 f_equal. unfold u16_be. rewrite lor_192 by (unfold u16_hi; dlia).
+  unfold u16_hi, u16_lo. dlia.
+Qed.
+
+Lemma NoDup_snoc {A} (l : list A) x : NoDup l -> ~ In x l -> NoDup (l ++ [x]).
+Proof.
+  induction 1 as [|a l Ha Hl IH]; cbn; intros Hx.
+  - repeat constructor. tauto.
+  - constructor; [|apply IH; tauto].
+    intros H. apply in_app_or in H as [H|[H|[]]]; [tauto|]. subst. tauto.
+Qed.
+
+(* DomainName::serialise *)
+Lemma encode_name_ok n c b : wb_ok b -> wf_name n ->
+  wb_ok (encode_name n c b) /\ ext b (encode_name n c b)
+  /\ NameIs (wb_octets (encode_name n c b)) (wb_len b) n (wb_len (encode_name n c b))
+  /\ (c = false -> wb_len (encode_name n c b) = wb_len b + nlen n).
+Proof.
+  intros Hok Hwf. unfold encode_name.
+  destruct (if c then alookup dname_eqb n (wb_ptrs b) else None) as [p|] eqn:L.
+  - (* a pointer to an earlier occurrence *)
+    destruct c; [|discriminate].
+    destruct (enc_table_inv_lookup b n p Hok L) as (off & Hp & Ho & Hlt & _ & _ & _ & Hna & _).
+    destruct (write_u16_ok p b Hok) as (ok1 & e1 & l1 & _).
+    splits; auto; [|discriminate].
+    destruct (wf_name_front n Hwf) as (front & E & Hf & Hn & Hle).
+    split; [|auto]. rewrite l1.
+    unfold write_u16. rewrite octets_write_octets.
+    assert (Hhi : u16_hi p = 192 + off / 256) by (unfold u16_hi; dlia).
+    assert (Hlo : u16_lo p = off mod 256) by (unfold u16_lo; dlia).
+    assert (Ht : (u16_hi p - 192) * 256 + u16_lo p = off) by (rewrite Hhi, Hlo; dlia).
+    eapply NA_ptr with (hi := u16_hi p) (lo := u16_lo p).
+    + rewrite (ok_len b Hok). apply nthN_app_mid.
+    + rewrite Hhi. dlia.
+    + rewrite (ok_len b Hok). unfold at_. rewrite nthN_app_r. reflexivity.
+    + rewrite Ht. exact Hlt.
+    + rewrite Ht. apply NameAt_app. apply Hna.
+  - (* written in full *)
+    destruct (memoise_name_spec n b) as (Ho & Hl & Hp).
+    destruct (write_labels_spec (labels n) (memoise_name n b)) as (Wo & Wl & Wp).
+    rewrite Ho in Wo. rewrite Hl in Wl.
+    destruct (wf_name_front n Hwf) as (front & E & Hf & Hn & Hle).
+    assert (Hplain : PlainAt (wb_octets (write_labels (labels n) (memoise_name n b))) (wb_len b) (labels n)).
+    { rewrite Wo. exists (wb_octets b), []. rewrite app_nil_r. split; auto.
+      symmetry. apply (ok_len b Hok). }
+    assert (ok' : wb_ok (write_labels (labels n) (memoise_name n b))).
+    { split.
+      - rewrite Wl, Wo, llen_app, llen_wire_labels, (ok_len b Hok). reflexivity.
+      - rewrite Wo. apply bytes_app; [apply (ok_bytes b Hok)|]. rewrite E. now apply bytes_wire_labels.
+      - rewrite Wp, Wo. destruct Hp as [-> | (-> & Hlt & Hr & Hnone)].
+        + eapply Forall_impl; [|apply (ok_ptrs b Hok)]. intros e. apply entry_ok_app.
+        + apply Forall_app. split.
+          * eapply Forall_impl; [|apply (ok_ptrs b Hok)]. intros e. apply entry_ok_app.
+          * constructor; [|constructor]. exists (wb_len b). cbn [fst snd]. splits; auto.
+            rewrite <- Wo. exact Hplain.
+      - rewrite Wp. destruct Hp as [-> | (-> & Hlt & Hr & Hnone)]; [apply (ok_keys b Hok)|].
+        rewrite map_app. cbn [map fst]. apply NoDup_snoc; [apply (ok_keys b Hok)|].
+        now apply alookup_none. }
+    splits; auto.
+    + exists (wire_labels (labels n)). exact Wo.
+    + rewrite Wl, <- Hn. now apply PlainAt_NameIs.
+    + intros _. rewrite Wl. lia.
+Qed.
+
+(* AAAA: eight big-endian u16 segments *)
+Lemma bytes_u16s segs : bytes (flat_map u16_bytes segs).
+Proof. induction segs; cbn [flat_map]; [constructor | apply bytes_app; auto using bytes_u16]. Qed.
+Lemma llen_u16s segs : llen (flat_map u16_bytes segs) = 2 * llen segs.
+Proof.
+  induction segs; cbn [flat_map]; [reflexivity|].
+  rewrite llen_app, IHsegs, llen_cons. change (llen (u16_bytes a)) with 2. lia.
+Qed.
+Lemma u16sAt_written segs : forall pre post, Forall u16 segs ->
+  u16sAt (pre ++ flat_map u16_bytes segs ++ post) (llen pre) segs.
+Proof.
+  induction segs as [|v segs IH]; intros pre post H; cbn [u16sAt]; auto.
+  inversion H as [|? ? Hv Hs]; subst. cbn [flat_map]. split.
+  - exists (u16_hi v), (u16_lo v). unfold u16_bytes. cbn [app]. splits.
+    + apply nthN_app_mid.
+    + unfold at_. rewrite nthN_app_r. reflexivity.
+    + now apply u16_bytes_val.
+  - replace (pre ++ (u16_bytes v ++ flat_map u16_bytes segs) ++ post)
+      with ((pre ++ u16_bytes v) ++ flat_map u16_bytes segs ++ post) by norm_app.
+    replace (llen pre + 2) with (llen (pre ++ u16_bytes v)) by (rewrite llen_app; reflexivity).
+    now apply IH.
+Qed.
+
+(* number of RDATA octets the encoder writes *)
+Definition rdata_len (d : rdata) : N :=
+  match d with
+  | RD_A _ => 4
+  | RD_Name n => nlen n
+  | RD_SOA m r _ _ _ _ _ => nlen m + nlen r + 20
+  | RD_Octets os => llen os
+  | RD_MINFO r e => nlen r + nlen e
+  | RD_MX _ e => 2 + nlen e
+  | RD_AAAA segs => 2 * llen segs
+  | RD_SRV _ _ _ t => 6 + nlen t
+  end.
+
+(* the RDATA part of ResourceRecord::serialise.  The RDLENGTH argument of the grammar is the
+   number of octets actually written. *)
+Lemma encode_rdata_ok ty d b : wb_ok b -> wf_rdata ty d ->
+  wb_ok (encode_rdata d b) /\ ext b (encode_rdata d b)
+  /\ wb_len (encode_rdata d b) = wb_len b + rdata_len d
+  /\ RDataAt (wb_octets (encode_rdata d b)) ty (rdata_len d) (wb_len b) d (wb_len (encode_rdata d b)).
+Proof.
+  intros Hok [Hsh Hwf]. symmetry in Hsh.
+  destruct d as [a | n | m r serial refresh retry expire minimum | os | r e | p e | segs | p w o t];
+    cbn [encode_rdata shape_of_rdata rdata_len] in *.
+  - (* A *)
+    destruct (write_u32_ok a b Hok) as (ok1 & e1 & l1 & U1).
+    change (write_octets (u32_bytes a) b) with (write_u32 a b).
+    splits; auto. rewrite l1. apply RDA_A; auto.
+  - (* NS CNAME PTR ... *)
+    destruct (encode_name_ok n false b Hok Hwf) as (ok1 & e1 & N1 & L1).
+    splits; auto. apply RDA_Name; auto.
+  - (* SOA *)
+    destruct Hwf as (Hm & Hr & H1 & H2 & H3 & H4 & H5).
+    destruct (encode_name_ok m false b Hok Hm) as (ok1 & e1 & N1 & L1). specialize (L1 eq_refl).
+    set (b1 := encode_name m false b) in *.
+    destruct (encode_name_ok r false b1 ok1 Hr) as (ok2 & e2 & N2 & L2). specialize (L2 eq_refl).
+    set (b2 := encode_name r false b1) in *.
+    destruct (write_u32_ok serial b2 ok2) as (ok3 & e3 & l3 & U3). set (b3 := write_u32 serial b2) in *.
+    destruct (write_u32_ok refresh b3 ok3) as (ok4 & e4 & l4 & U4). set (b4 := write_u32 refresh b3) in *.
+    destruct (write_u32_ok retry b4 ok4) as (ok5 & e5 & l5 & U5). set (b5 := write_u32 retry b4) in *.
+    destruct (write_u32_ok expire b5 ok5) as (ok6 & e6 & l6 & U6). set (b6 := write_u32 expire b5) in *.
+    destruct (write_u32_ok minimum b6 ok6) as (ok7 & e7 & l7 & U7). set (b7 := write_u32 minimum b6) in *.
+    splits; auto; [solve_ext | lia |].
+    replace (wb_len b7) with (wb_len b2 + 20) by lia.
+    apply RDA_SOA with (p1 := wb_len b1); auto.
+    + eapply NameIs_ext; [|exact N1]. solve_ext.
+    + eapply NameIs_ext; [|exact N2]. solve_ext.
+    + eapply u32At_ext; [|exact (U3 H1)]. solve_ext.
+    + replace (wb_len b2 + 4) with (wb_len b3) by lia. eapply u32At_ext; [|exact (U4 H2)]. solve_ext.
+    + replace (wb_len b2 + 8) with (wb_len b4) by lia. eapply u32At_ext; [|exact (U5 H3)]. solve_ext.
+    + replace (wb_len b2 + 12) with (wb_len b5) by lia. eapply u32At_ext; [|exact (U6 H4)]. solve_ext.
+    + replace (wb_len b2 + 16) with (wb_len b6) by lia. exact (U7 H5).
+  - (* NULL WKS HINFO TXT Unknown *)
+    destruct (write_octets_ok os b Hwf Hok) as (ok1 & e1 & l1 & O1).
+    splits; auto. rewrite l1. apply RDA_Octets; auto.
+  - (* MINFO *)
+    destruct Hwf as (Hr & He).
+    destruct (encode_name_ok r false b Hok Hr) as (ok1 & e1 & N1 & L1). specialize (L1 eq_refl).
+    set (b1 := encode_name r false b) in *.
+    destruct (encode_name_ok e false b1 ok1 He) as (ok2 & e2 & N2 & L2). specialize (L2 eq_refl).
+    set (b2 := encode_name e false b1) in *.
+    splits; auto; [solve_ext | lia |].
+    apply RDA_MINFO with (p1 := wb_len b1); auto.
+    eapply NameIs_ext; [|exact N1]. solve_ext.
+  - (* MX *)
+    destruct Hwf as (Hp & He).
+    destruct (write_u16_ok p b Hok) as (ok1 & e1 & l1 & U1). set (b1 := write_u16 p b) in *.
+    destruct (encode_name_ok e false b1 ok1 He) as (ok2 & e2 & N2 & L2). specialize (L2 eq_refl).
+    set (b2 := encode_name e false b1) in *.
+    splits; auto; [solve_ext | lia |].
+    apply RDA_MX; auto.
+    eapply u16At_ext; [|exact (U1 Hp)]. solve_ext.
+  - (* AAAA *)
+    destruct Hwf as (Hlen & Hsegs).
+    destruct (write_octets_ok (flat_map u16_bytes segs) b (bytes_u16s segs) Hok) as (ok1 & e1 & l1 & _).
+    rewrite llen_u16s in l1.
+    splits; auto.
+    replace (wb_len (write_octets (flat_map u16_bytes segs) b)) with (wb_len b + 16)
+      by (rewrite l1; unfold llen; rewrite Hlen; reflexivity).
+    apply RDA_AAAA; auto.
+    rewrite octets_write_octets, (ok_len b Hok).
+    rewrite <- (app_nil_r (flat_map u16_bytes segs)). now apply u16sAt_written.
+  - (* SRV *)
+    destruct Hwf as (Hp & Hw & Ho & Ht).
+    destruct (write_u16_ok p b Hok) as (ok1 & e1 & l1 & U1). set (b1 := write_u16 p b) in *.
+    destruct (write_u16_ok w b1 ok1) as (ok2 & e2 & l2 & U2). set (b2 := write_u16 w b1) in *.
+    destruct (write_u16_ok o b2 ok2) as (ok3 & e3 & l3 & U3). set (b3 := write_u16 o b2) in *.
+    destruct (encode_name_ok t false b3 ok3 Ht) as (ok4 & e4 & N4 & L4). specialize (L4 eq_refl).
+    set (b4 := encode_name t false b3) in *.
+    splits; auto; [solve_ext | lia |].
+    apply RDA_SRV; auto.
+    + eapply u16At_ext; [|exact (U1 Hp)]. solve_ext.
+    + replace (wb_len b + 2) with (wb_len b1) by lia. eapply u16At_ext; [|exact (U2 Hw)]. solve_ext.
+    + replace (wb_len b + 4) with (wb_len b2) by lia. eapply u16At_ext; [|exact (U3 Ho)]. solve_ext.
+    + replace (wb_len b + 6) with (wb_len b3) by lia. exact N4.
+Qed.
+
+(* Question::serialise *)
+Lemma encode_question_ok q b : wb_ok b -> wf_question q ->
+  wb_ok (encode_question q b) /\ ext b (encode_question q b)
+  /\ QuestionAt (wb_octets (encode_question q b)) (wb_len b) q (wb_len (encode_question q b)).
+Proof.
+  intros Hok (Hn & Ht & Hc). unfold encode_question.
+  destruct (encode_name_ok (q_name q) true b Hok Hn) as (ok1 & e1 & N1 & _).
+  set (b1 := encode_name (q_name q) true b) in *.
+  destruct (write_u16_ok (q_type q) b1 ok1) as (ok2 & e2 & l2 & U2). set (b2 := write_u16 (q_type q) b1) in *.
+  destruct (write_u16_ok (q_class q) b2 ok2) as (ok3 & e3 & l3 & U3). set (b3 := write_u16 (q_class q) b2) in *.
+  splits; auto; [solve_ext|].
+  exists (wb_len b1). splits.
+  - eapply NameIs_ext; [|exact N1]. solve_ext.
+  - eapply u16At_ext; [|exact (U2 Ht)]. solve_ext.
+  - replace (wb_len b1 + 2) with (wb_len b2) by lia. exact (U3 Hc).
+  - lia.
+Qed.
+
+Lemma encode_questions_ok qs : forall b, wb_ok b -> Forall wf_question qs ->
+  let b' := fold_left (fun acc q => encode_question q acc) qs b in
+  wb_ok b' /\ ext b b' /\ SeqAt (QuestionAt (wb_octets b')) (wb_len b) qs (wb_len b').
+Proof.
+  induction qs as [|q qs IH]; intros b Hok Hwf; cbn [fold_left SeqAt].
+  - splits; auto using ext_refl.
+  - inversion Hwf as [|? ? Hq Hqs]; subst.
+    destruct (encode_question_ok q b Hok Hq) as (ok1 & e1 & Q1).
+    destruct (IH (encode_question q b) ok1 Hqs) as (ok2 & e2 & S2).
+    splits; auto; [solve_ext|].
+    exists (wb_len (encode_question q b)). split; auto.
+    eapply QuestionAt_ext; [|exact Q1]. exact e2.
+Qed.
+
+(* ------------------------------------------------------------------ *)
+(* 5. RDLENGTH back-patching                                           *)
+(* ------------------------------------------------------------------ *)
+
+(* Two buffers that were equal up to some point, differ in the octets [sa] / [sb] written
+   then (same number of octets), and have since received the same writes.  No encoder step
+   looks at octets already written, so every step preserves the relation. *)
+Definition differ (sa sb : list byte) (a b : wbuf) : Prop :=
+  exists news, wb_rev a = news ++ sa /\ wb_rev b = news ++ sb
+               /\ wb_len a = wb_len b /\ wb_ptrs a = wb_ptrs b.
+
+Lemma differ_write_octets sa sb os a b : differ sa sb a b -> differ sa sb (write_octets os a) (write_octets os b).
+Proof.
+  intros (news & Ha & Hb & Hl & Hp). exists (rev os ++ news). unfold write_octets; cbn [wb_rev wb_len wb_ptrs].
+  rewrite !rev_append_rev, Ha, Hb, Hl, Hp, <- !app_assoc. auto.
+Qed.
+Lemma differ_memoise sa sb n a b : differ sa sb a b -> differ sa sb (memoise_name n a) (memoise_name n b).
+Proof.
+  intros (news & Ha & Hb & Hl & Hp). unfold memoise_name. rewrite Hl, Hp.
+  destruct (negb (is_root n) && negb match alookup dname_eqb n (wb_ptrs b) with Some _ => true | None => false end).
+  - destruct ((wb_len b <? 65536) && (wb_len b <? 16384)).
+    + exists news. cbn [wb_rev wb_len wb_ptrs]. auto.
+    + exists news. auto.
+  - exists news. auto.
+Qed.
+Lemma differ_write_labels sa sb ls : forall a b, differ sa sb a b ->
+  differ sa sb (write_labels ls a) (write_labels ls b).
+Proof.
+  unfold write_labels. induction ls as [|l ls IH]; intros a b H; cbn [fold_left]; auto.
+  apply IH. unfold write_u8. auto using differ_write_octets.
+Qed.
+Lemma differ_encode_name sa sb n c a b : differ sa sb a b ->
+  differ sa sb (encode_name n c a) (encode_name n c b).
+Proof.
+  intros H. unfold encode_name.
+  replace (wb_ptrs a) with (wb_ptrs b) by (destruct H as (? & ? & ? & ? & ?); auto).
+  destruct (if c then alookup dname_eqb n (wb_ptrs b) else None).
+  - unfold write_u16. now apply differ_write_octets.
+  - now apply differ_write_labels, differ_memoise.
+Qed.
+Lemma differ_encode_rdata sa sb d a b : differ sa sb a b ->
+  differ sa sb (encode_rdata d a) (encode_rdata d b).
+Proof.
+  intros H. destruct d; cbn [encode_rdata]; unfold write_u32, write_u16;
+    auto 12 using differ_write_octets, differ_encode_name.
+Qed.
+
+Lemma firstn_app_exact' {A} (a b : list A) k : k = length a -> firstn k (a ++ b) = a.
+Proof. intros ->. apply firstn_app_exact. Qed.
+Lemma skipn_app_exact' {A} (a b : list A) k : k = length a -> skipn k (a ++ b) = b.
+Proof. intros ->. apply skipn_app_exact. Qed.
+
+Lemma wb_len_rev b : wb_ok b -> wb_len b = llen (wb_rev b).
+Proof. intros H. rewrite (ok_len b H). unfold wb_octets, llen. now rewrite rev_length. Qed.
+
+(* patching the placeholder afterwards = having written the final value in the first place *)
+Lemma patch_differ a b tail x1 x0 v :
+  wb_len a = llen (wb_rev a) ->
+  differ (x0 :: x1 :: tail) (u16_lo v :: u16_hi v :: tail) a b ->
+  patch_u16 (llen tail) v a = b.
+Proof.
+  intros Hlen (news & Ha & Hb & Hl & Hp). unfold patch_u16.
+  assert (Hk : N.to_nat (wb_len a - llen tail - 2) = length news).
+  { rewrite Hlen, Ha. unfold llen. rewrite app_length. cbn [length]. lia. }
+  rewrite Hk, Ha.
+  rewrite firstn_app_exact' by reflexivity.
+  replace (news ++ x0 :: x1 :: tail) with ((news ++ [x0; x1]) ++ tail) by norm_app.
+  rewrite skipn_app_exact' by (rewrite app_length; cbn [length]; lia).
+  destruct b; cbn [wb_rev wb_len wb_ptrs] in *. subst. reflexivity.
+Qed.
+
+(* ResourceRecord::serialise without the back-patch: RDLENGTH is the number of RDATA octets *)
+Definition rr_fixed (r : rr) (b : wbuf) : wbuf :=
+  write_u32 (rr_ttl r) (write_u16 (rr_class r) (write_u16 (rr_type r) (encode_name (rr_name r) true b))).
+
+Lemma rr_fixed_ok r b : wb_ok b -> wf_rr r -> wb_ok (rr_fixed r b).
+Proof.
+  intros Hok (Hn & _). unfold rr_fixed.
+  destruct (encode_name_ok (rr_name r) true b Hok Hn) as (ok1 & _).
+  apply write_u32_ok, write_u16_ok, write_u16_ok, ok1.
+Qed.
+
+Lemma encode_rr_unpatched r b : wb_ok b -> wf_rr r ->
+  encode_rr r b =
+    if rdata_len (rr_data r) <? 65536
+    then Ok (encode_rdata (rr_data r) (write_u16 (rdata_len (rr_data r)) (rr_fixed r b)))
+    else Err (CounterTooLarge (rdata_len (rr_data r))).
+Proof.
+  intros Hok Hwf. pose proof (rr_fixed_ok r b Hok Hwf) as ok2.
+  destruct Hwf as (_ & _ & _ & _ & Hd).
+  unfold encode_rr. fold (rr_fixed r b). set (b2 := rr_fixed r b) in *.
+  destruct (write_u16_ok 0 b2 ok2) as (ok3 & _ & l3 & _).
+  destruct (encode_rdata_ok _ (rr_data r) (write_u16 0 b2) ok3 Hd) as (ok4 & _ & l4 & _).
+  replace (wb_len (encode_rdata (rr_data r) (write_u16 0 b2)) - wb_len b2 - 2)
+    with (rdata_len (rr_data r)) by lia.
+  destruct (rdata_len (rr_data r) <? 65536); [|reflexivity].
+  f_equal. rewrite (wb_len_rev b2 ok2).
+  eapply patch_differ with (x0 := 0) (x1 := 0); [now apply wb_len_rev|].
+  apply differ_encode_rdata.
+  exists []. cbn [app]. unfold write_u16, write_octets; cbn [wb_rev wb_len wb_ptrs rev_append u16_bytes].
+  splits; auto.
+Qed.
+
+(* ResourceRecord::serialise *)
+Lemma encode_rr_ok r b b' : wb_ok b -> wf_rr r -> encode_rr r b = Ok b' ->
+  wb_ok b' /\ ext b b' /\ RRAt (wb_octets b') (wb_len b) r (wb_len b').
+Proof.
+  intros Hok Hwf. rewrite (encode_rr_unpatched r b Hok Hwf).
+  destruct (rdata_len (rr_data r) <? 65536) eqn:Hfit; [|discriminate]. intros [= <-].
+  apply N.ltb_lt in Hfit.
+  destruct Hwf as (Hn & Ht & Hc & Httl & Hd). unfold rr_fixed.
+  destruct (encode_name_ok (rr_name r) true b Hok Hn) as (ok1 & e1 & N1 & _).
+  set (b1 := encode_name (rr_name r) true b) in *.
+  destruct (write_u16_ok (rr_type r) b1 ok1) as (ok2 & e2 & l2 & U2). set (b2 := write_u16 (rr_type r) b1) in *.
+  destruct (write_u16_ok (rr_class r) b2 ok2) as (ok3 & e3 & l3 & U3). set (b3 := write_u16 (rr_class r) b2) in *.
+  destruct (write_u32_ok (rr_ttl r) b3 ok3) as (ok4 & e4 & l4 & U4). set (b4 := write_u32 (rr_ttl r) b3) in *.
+  destruct (write_u16_ok (rdata_len (rr_data r)) b4 ok4) as (ok5 & e5 & l5 & U5).
+  set (b5 := write_u16 (rdata_len (rr_data r)) b4) in *.
+  destruct (encode_rdata_ok _ (rr_data r) b5 ok5 Hd) as (ok6 & e6 & l6 & R6).
+  set (b6 := encode_rdata (rr_data r) b5) in *.
+  splits; auto; [solve_ext|].
+  exists (wb_len b1), (rdata_len (rr_data r)). splits.
+  - eapply NameIs_ext; [|exact N1]. solve_ext.
+  - eapply u16At_ext; [|exact (U2 Ht)]. solve_ext.
+  - replace (wb_len b1 + 2) with (wb_len b2) by lia. eapply u16At_ext; [|exact (U3 Hc)]. solve_ext.
+  - replace (wb_len b1 + 4) with (wb_len b3) by lia. eapply u32At_ext; [|exact (U4 Httl)]. solve_ext.
+  - replace (wb_len b1 + 8) with (wb_len b4) by lia. eapply u16At_ext; [|exact (U5 Hfit)]. solve_ext.
+  - replace (wb_len b1 + 10) with (wb_len b5) by lia. exact R6.
+  - lia.
+Qed.
+
+Lemma encode_rrs_ok rs : forall b b', wb_ok b -> Forall wf_rr rs -> encode_rrs rs b = Ok b' ->
+  wb_ok b' /\ ext b b' /\ SeqAt (RRAt (wb_octets b')) (wb_len b) rs (wb_len b').
+Proof.
+  induction rs as [|r rs IH]; intros b b' Hok Hwf; cbn [encode_rrs SeqAt].
+  - intros [= <-]. splits; auto using ext_refl.
+  - inversion Hwf as [|? ? Hr Hrs]; subst.
+    destruct (encode_rr r b) as [b1| | |] eqn:E1; cbn [bind]; try discriminate.
+    intros E2.
+    destruct (encode_rr_ok r b b1 Hok Hr E1) as (ok1 & e1 & R1).
+    destruct (IH b1 b' ok1 Hrs E2) as (ok2 & e2 & S2).
+    splits; auto; [solve_ext|].
+    exists (wb_len b1). split; auto.
+    eapply RRAt_ext; [|exact R1]. exact e2.
 Qed.
